@@ -8,6 +8,21 @@ import traceback
 sys.path.insert(0, os.path.dirname(os.path.abspath(__file__)))
 
 
+def library_frame(exc):
+    """If the innermost frame of the traceback lies in the discopy tree under test, return
+    'harness-file:line -> library-file:line'; None when the harness itself failed."""
+    import discopy
+    lib = os.path.dirname(os.path.abspath(discopy.__file__)) + os.sep
+    here = os.path.dirname(os.path.abspath(__file__)) + os.sep
+    frames = traceback.extract_tb(exc.__traceback__)
+    if not frames or not os.path.abspath(frames[-1].filename).startswith(lib):
+        return None
+    caller = [f for f in frames if os.path.abspath(f.filename).startswith(here)]
+    c = caller[-1] if caller else frames[0]
+    return "%s:%d -> %s:%d" % (os.path.relpath(c.filename, here), c.lineno,
+                               os.path.basename(frames[-1].filename), frames[-1].lineno)
+
+
 def main():
     ap = argparse.ArgumentParser()
     ap.add_argument("prop")
@@ -27,10 +42,30 @@ def main():
     try:
         mod = importlib.import_module("props." + args.prop.lower())
         code = mod.run(tier, seed, replay=args.replay)
-    except Exception:
+    except Exception as exc:
         traceback.print_exc()
-        print("HARNESS-ERROR property=%s (exit 2; not a violation)" % args.prop)
-        sys.exit(2)
+        where = library_frame(exc)
+        if where is None:
+            print("HARNESS-ERROR property=%s (exit 2; not a violation)" % args.prop)
+            sys.exit(2)
+        # The exception was raised INSIDE discopy, by a call the check makes on every run and
+        # that goes through on the tree the check was built against: the library's behaviour
+        # changed under a stream of the correspondence.  Verdict rule of DESIGN.md section 4:
+        # a broken correspondence without a failing input in hand is reported as such, naming
+        # the stream (here: the harness line that made the call) in the replay file.
+        import json
+        from common import VERIF
+        prop = args.prop.upper()
+        path = os.path.join(VERIF, "replays", "%s_%s_%d.json" % (prop, tier, seed))
+        os.makedirs(os.path.dirname(path), exist_ok=True)
+        with open(path, "w") as f:
+            json.dump(dict(property=prop, tier=tier, seed=seed, violation=dict(
+                kind="correspondence-broken", no_input=True,
+                theorem_or_stream="library call raised where the check expects none: " + where,
+                exception=repr(exc)[:500],
+                traceback=traceback.format_exc()[-3000:])), f, indent=1)
+        print("VIOLATION property=%s replay=%s no-failing-input-found" % (prop, path))
+        sys.exit(1)
     sys.exit(code)
 
 
